@@ -45,7 +45,7 @@ class Abstract(object):
 def to_term(x, sort=None):
     if isinstance(x, SV):
         return x.t
-    if isinstance(x, AObj) and x.ref is not None:
+    if isinstance(x, (AObj, Opaque)) and x.ref is not None:
         return x.ref
     if z3.is_expr(x):
         return x
@@ -155,6 +155,19 @@ class ZBag(Abstract):
         raise Unsupported(f'bag method {attr}')
 
 
+def _zbag_sym_iter(self, it, s, frame):
+    return it.iterate_bag(self, s, frame)
+
+
+ZBag.sym_iter = _zbag_sym_iter
+
+
+class NameImage(Abstract):
+    """[f.name() for f in bag]: the multiset image under name_of (only membership is used)."""
+    def __init__(self, bag, fn):
+        self.bag, self.fn = bag, fn
+
+
 class ZSet(Abstract):
     def __init__(self, esort, mem=None, name='set'):
         self.esort, self.name = esort, name
@@ -176,6 +189,25 @@ class ZSet(Abstract):
             return None
         raise Unsupported(f'set method {attr}')
 
+    def union_update(self, it, other):
+        new = fresh(self.name + '.mem', z3.ArraySort(self.esort, z3.BoolSort()))
+        e = z3.Const('_e', self.esort)
+        if isinstance(other, ZSet):
+            it.run.fact(z3.ForAll([e], new[e] == z3.Or(self.mem[e], other.mem[e])))
+        elif isinstance(other, (set, frozenset, list, tuple)):
+            cur = self.mem
+            for x in other:
+                cur = z3.Store(cur, to_term(x), z3.BoolVal(True))
+            self.mem = cur
+            return
+        else:
+            raise Unsupported('set union with unsupported operand')
+        self.mem = new
+
+
+def _sort_ok(t, sort):
+    return z3.is_expr(t) and t.sort() == sort
+
 
 class ZMap(Abstract):
     """dict K -> V with V a z3 sort."""
@@ -189,7 +221,10 @@ class ZMap(Abstract):
         return cls(ksort, vsort, fresh(name + '.has', z3.ArraySort(ksort, z3.BoolSort())), fresh(name + '.val', z3.ArraySort(ksort, vsort)), name)
 
     def sym_contains(self, it, x, node):
-        return SV('bool', self.has[to_term(x)])
+        t = to_term(x)
+        if not _sort_ok(t, self.ksort):
+            return False   # an object of another type never equals a key
+        return SV('bool', self.has[t])
 
     def sym_getitem(self, it, key, node):
         k = to_term(key)
@@ -229,7 +264,13 @@ class ZMapBag(Abstract):
         return [z3.ForAll([k, e], z3.And(self.cnt[k][e] >= 0, self.cnt[k][e] <= self.ln[k])),
                 z3.ForAll([k], self.ln[k] >= 0),
                 z3.ForAll([k, e], z3.Implies(self.ln[k] == 0, self.cnt[k][e] == 0)),
-                z3.ForAll([k, e], z3.Implies(z3.Not(self.has[k]), z3.And(self.ln[k] == 0, self.cnt[k][e] == 0)))]
+                z3.ForAll([k, e], z3.Implies(z3.Not(self.has[k]), z3.And(self.ln[k] == 0, self.cnt[k][e] == 0))),
+                z3.ForAll([k], z3.Implies(self.ln[k] > 0, self.cnt[k][self._witness()[k]] > 0))]
+
+    def _witness(self):
+        if not hasattr(self, '_wit'):
+            self._wit = fresh(self.name + '.wit', z3.ArraySort(self.ksort, self.esort))
+        return self._wit
 
     def sym_contains(self, it, x, node):
         return SV('bool', self.has[to_term(x)])
@@ -386,6 +427,34 @@ class CoreInterp(sym.Interp):
             return OpaqueMethod(obj, attr)
         return NotImplemented
 
+    def getitem_hook(self, obj, key, node):
+        if isinstance(obj, AObj) and hasattr(obj.cls, '__getitem__'):
+            return self.call_function(obj.cls.__getitem__, [obj, key], {}, node)
+        if isinstance(obj, Opaque) and self.spec is not None:
+            return self.spec.opaque_call(self, obj, '__getitem__', [key], {}, node)
+        return NotImplemented
+
+    def setitem(self, obj, key, v, node):
+        if isinstance(obj, AObj) and hasattr(obj.cls, '__setitem__'):
+            return self.call_function(obj.cls.__setitem__, [obj, key, v], {}, node)
+        if isinstance(obj, Opaque) and self.spec is not None:
+            return self.spec.opaque_call(self, obj, '__setitem__', [key, v], {}, node)
+        return super().setitem(obj, key, v, node)
+
+    def to_str_term(self, v):
+        if isinstance(v, SV) and v.kind == 'obj':
+            return z3.Function(f'str_of_{v.t.sort().name()}', v.t.sort(), z3.StringSort())(v.t)
+        if isinstance(v, Opaque):
+            return z3.Function('str_of_Obj', OBJ, z3.StringSort())(v.ref)
+        return super().to_str_term(v)
+
+    def sym_method(self, obj, attr, args, kwargs, node):
+        if isinstance(obj, SV) and obj.kind == 'obj' and self.spec is not None:
+            r = self.spec.sym_attr_call(self, obj, attr, args, node)
+            if r is not NotImplemented:
+                return r
+        return super().sym_method(obj, attr, args, kwargs, node)
+
     def setattr(self, obj, attr, v, node):
         if isinstance(obj, AObj):
             view = self.spec.view_of(obj.cls, attr) if self.spec is not None else None
@@ -404,6 +473,28 @@ class CoreInterp(sym.Interp):
             c = self.spec.callee_contract(f.__self__, f.__func__)
             if c is not None and self.depth > 0 and not (self.spec.is_self(f.__func__) and self.depth == 0):
                 return c(self, f.__self__, args, kwargs, node)
+        if f is set and len(args) == 1 and isinstance(args[0], NameImage):
+            ni = args[0]
+            out = ZSet.havoc(NAME, 'nameset')
+            L = z3.Const('_L', NAME)
+            x = z3.Const('_x', ni.bag.esort)
+            # membership both ways (skolemised by the image function on the forward direction)
+            self.run.fact(z3.ForAll([x], z3.Implies(ni.bag.cnt[x] > 0, out.mem[ni.fn(x)])))
+            wit = z3.Function(f'wit!{next(_fresh)}', NAME, ni.bag.esort)
+            self.run.fact(z3.ForAll([L], z3.Implies(out.mem[L], z3.And(ni.bag.cnt[wit(L)] > 0, ni.fn(wit(L)) == L))))
+            return out
+        if f is set and len(args) == 1 and isinstance(args[0], (list, tuple)) and any(sym.is_sym(a) for a in args[0]):
+            out = ZSet(NAME, name='nameset')
+            for a in args[0]:
+                out.mem = z3.Store(out.mem, to_term(a), z3.BoolVal(True))
+            return out
+        if f is isinstance and len(args) == 2 and isinstance(args[0], Abstract):
+            if isinstance(args[0], ZBag):
+                return args[1] is list or (isinstance(args[1], tuple) and list in args[1])
+            return False
+        if f is isinstance and len(args) == 2 and isinstance(args[0], SV) and args[0].kind == 'obj':
+            if args[1] is list:
+                return False
         if f is list and len(args) == 1 and isinstance(args[0], KeysView):
             return args[0].as_bag(self)
         if f is list and len(args) == 1 and isinstance(args[0], ZBag):
@@ -425,6 +516,9 @@ class CoreInterp(sym.Interp):
             self.spec.on_yield(self, v, node, frame)
 
     # --- loops
+    def has_loop_contract(self, s):
+        return self.spec is not None and self.spec.loop_invariant(s) is not None
+
     def symbolic_while(self, s, frame, first_cond):
         inv = self.spec.loop_invariant(s) if self.spec is not None else None
         if inv is None:
@@ -458,6 +552,67 @@ class CoreInterp(sym.Interp):
                 self.oblige(f'loop@{s.lineno}/variant-decreases', z3.And(dec, *[x >= 0 for x in a0]))
             raise LoopIterationDone()
         # loop exit: continue after the loop
+        return None
+
+    def binop(self, op, a, b, node):
+        import ast as _ast
+        if isinstance(op, _ast.BitOr) and isinstance(a, ZSet):
+            a.union_update(self, b)
+            return a
+        return super().binop(op, a, b, node)
+
+    def comprehension(self, e, frame):
+        import ast as _ast
+        # [f.name() for f in <bag>]  ->  NameImage
+        if len(e.generators) == 1 and not e.generators[0].ifs and isinstance(e.generators[0].target, _ast.Name):
+            seq = self.eval(e.generators[0].iter, frame)
+            if isinstance(seq, ZBag):
+                el = e.elt
+                tn = e.generators[0].target.id
+                if isinstance(el, _ast.Call) and isinstance(el.func, _ast.Attribute) and isinstance(el.func.value, _ast.Name) \
+                        and el.func.value.id == tn and el.func.attr == 'name' and not el.args:
+                    return NameImage(seq, self.spec.name_of)
+                raise Unsupported('comprehension over an abstract list (only [x.name() for x in list] is modelled)')
+        return super().comprehension(e, frame)
+
+    def iterate_bag(self, bag, s, frame):
+        """for x in <bag>: body   with an invariant over (state, remaining bag R)."""
+        inv = self.spec.loop_invariant(s) if self.spec is not None else None
+        if inv is None:
+            raise Unsupported(f'loop over an abstract list at line {s.lineno} without an invariant in the contract')
+        selfobj = frame.locals.get('self')
+        R = bag.snap()
+        rkey = 'R' if bag.esort == OBJ else 'Rk'
+        self.ghost[rkey] = R
+        for label, g in inv['inv'](self, selfobj, frame):
+            self.oblige(f'loop@{s.lineno}/entry/{label}', g)
+        self.spec.havoc(self, selfobj, inv.get('modifies', []), frame, inv.get('locals', []))
+        R = ZBag.havoc(bag.esort, 'R')
+        for f in R.wf():
+            self.run.fact(f)
+        self.ghost[rkey] = R
+        for label, g in inv['inv'](self, selfobj, frame):
+            self.run.fact(g)
+        if self.run.branch(R.size > 0, where=f'for@{s.lineno}'):
+            x = fresh('elem', bag.esort)
+            self.run.fact(R.cnt[x] > 0)
+            R.remove_one(x)
+            for f in R.wf():
+                self.run.fact(f)
+            self.assign(s.target, wrap(x), frame)
+            try:
+                self.exec_block(s.body, frame)
+            except sym._Continue:
+                pass
+            except sym._Break:
+                # leaving the loop early: continue after it with the current state (R is dropped)
+                self.ghost[rkey] = ZBag(bag.esort, name='R')
+                self.ghost['broke'] = True
+                return None
+            for label, g in inv['inv'](self, selfobj, frame):
+                self.oblige(f'loop@{s.lineno}/preserve/{label}', g)
+            raise LoopIterationDone()
+        self.ghost[rkey] = ZBag(bag.esort, name='R')
         return None
 
     def iterate_keys(self, m, s, frame, items=False):
@@ -532,6 +687,9 @@ class Spec(object):
     def on_yield(self, it, v, node, frame):
         pass
 
+    def sym_attr_call(self, it, obj, attr, args, node):
+        return NotImplemented
+
     def callee_contract(self, selfobj, func):
         return None
 
@@ -585,7 +743,7 @@ class View(object):
 def run_function(fn, make_state, spec, generator=False, esort=None, max_paths=500):
     """Explore all paths of `fn` from the pre-state built by make_state(interp) ->
     (args list, pre-snapshot info).  Returns list of (path, pre, post_self, outcome, yielded)."""
-    ex = sym.Explorer(max_paths=max_paths)
+    ex = sym.Explorer(max_paths=max_paths, feas_skip_quant=True, feas_timeout_ms=int(__import__('os').environ.get('VERIF_FEAS_MS', '300')))
     results = []
 
     def thunk(run):
@@ -605,6 +763,38 @@ def run_function(fn, make_state, spec, generator=False, esort=None, max_paths=50
         return r
     paths = ex.explore(thunk)
     return paths
+
+
+_OBL = []
+
+
+def _discharge_one(ix):
+    label, hyps, goal = _OBL[ix]
+    st, model, be, secs, txt = smt.prove(hyps, goal, _OBL_TIMEOUT[0])
+    return (ix, st, model, be, secs, txt)
+
+
+_OBL_TIMEOUT = [None]
+
+
+def discharge_parallel(obligs, timeout_ms=None, jobs=None):
+    """Like discharge(), over a fork pool (z3 terms are inherited by the children, results are plain data)."""
+    import multiprocessing
+    import os
+    global _OBL
+    _OBL = list(obligs)
+    _OBL_TIMEOUT[0] = timeout_ms
+    jobs = jobs or int(os.environ.get('VERIF_JOBS', '16'))
+    if len(_OBL) < 4 or jobs <= 1:
+        return discharge(obligs, timeout_ms)
+    ctx = multiprocessing.get_context('fork')
+    with ctx.Pool(min(jobs, len(_OBL))) as pool:
+        res = pool.map(_discharge_one, range(len(_OBL)), chunksize=1)
+    out = []
+    for ix, st, model, be, secs, txt in res:
+        label, hyps, goal = _OBL[ix]
+        out.append((label, st, model, be, secs, txt, goal))
+    return out
 
 
 def discharge(obligs, timeout_ms=None):
